@@ -29,9 +29,20 @@ def run_demo(demo):
     if demo == "-":
         return None
     env = dict(os.environ, PYTHONPATH=REPO, PYTHONDONTWRITEBYTECODE="1")
-    # run the script without putting its own directory (a worktree with its own testtools) first
+    # run the script without putting its own directory (a worktree with its own testtools) first:
+    # neither implicitly (sys.path[0]) nor by the script's own sys.path.insert(0, <its directory>)
+    import re
+    import tempfile
+
+    text = open(demo).read()
+    text = re.sub(r"(?m)^(\s*)sys\.path\.insert\(0, os\.path\.dirname\(os\.path\.abspath\(__file__\)\)\)\s*$", r"\1pass", text)
+    tmp = tempfile.NamedTemporaryFile("w", suffix=".py", prefix="vt-demo-", delete=False)
+    tmp.write(text)
+    tmp.close()
+    demo = tmp.name
     code = "import runpy, sys; sys.argv=[%r]; runpy.run_path(%r, run_name='__main__')" % (demo, demo)
     rc, out = sh(["/venv/bin/python", "-c", code], cwd=REPO, env=env, timeout=600)
+    os.unlink(demo)
     return rc
 
 
